@@ -186,8 +186,17 @@ def runCrash (j : Json) : Json :=
       let chunks := (getArr j "chunks").toList.map parseChunk
       (s0.feedOps chunks, (s0.feed chunks).2.map Json.bool)
   let images := (List.range (ops.length + 1)).map (fun k => jFS (fs.crashAt ops k))
+  -- fork mode: status `checkSerializing` reports when the child is killed after k of its operations
+  let killed : List Json :=
+    if getBool j "fork" && getStr j "what" == "serialize" then
+      let sf : Ser := { s0 with fork := true }
+      let s1 := (sf.serialize 0 (parsePieces j "p") (getBool j "fail")).1
+      (List.range ops.length).map (fun k =>
+        let sk := (List.range k).foldl (fun acc _ => acc.childStep) s1
+        Json.str (statusStr (sk.childKill.checkSerializing none).2.1))
+    else []
   Json.mkObj [("ops", Json.arr (ops.map (fun o => Json.str (opStr o))).toArray),
-    ("images", Json.arr images.toArray), ("rets", Json.arr rets.toArray)]
+    ("images", Json.arr images.toArray), ("rets", Json.arr rets.toArray), ("killed", Json.arr killed.toArray)]
 
 def handle (line : String) : String :=
   match Json.parse line with
